@@ -1241,7 +1241,18 @@ class FuncTranslator:
         if m:
             n = int(m.group(3)); sg = m.group(1); o = m.group(2)
             a = V_(args[0]); b_ = V_(args[1])
-            if n > 64: raise ValueError('overflow intrinsic > 64')
+            if n > 64:
+                if n != 128: raise ValueError('overflow intrinsic i%d' % n)
+                U = 'unsigned __int128'; S = '__int128'
+                if sg == 'u':
+                    if o == 'add': out.append('{ %s a_ = %s, b_ = %s; %s.f0 = a_ + b_; %s.f1 = (uint8_t)(%s.f0 < a_); }' % (U, a, b_, R, R, R))
+                    elif o == 'sub': out.append('{ %s a_ = %s, b_ = %s; %s.f0 = a_ - b_; %s.f1 = (uint8_t)(a_ < b_); }' % (U, a, b_, R, R))
+                    else: out.append('{ %s a_ = %s, b_ = %s; %s.f0 = a_ * b_; %s.f1 = (uint8_t)(a_ != 0 && %s.f0 / a_ != b_); }' % (U, a, b_, R, R, R))
+                else:
+                    if o == 'add': out.append('{ %s a_ = %s, b_ = %s; %s r_ = a_ + b_; %s.f0 = r_; %s.f1 = (uint8_t)((((a_ ^ r_) & (b_ ^ r_)) >> 127) & 1); }' % (U, a, b_, U, R, R))
+                    elif o == 'sub': out.append('{ %s a_ = %s, b_ = %s; %s r_ = a_ - b_; %s.f0 = r_; %s.f1 = (uint8_t)((((a_ ^ b_) & (a_ ^ r_)) >> 127) & 1); }' % (U, a, b_, U, R, R))
+                    else: out.append('{ %s a_ = %s, b_ = %s; %s r_ = a_ * b_; %s.f0 = r_; %s m_ = ((%s)1) << 127; %s.f1 = (uint8_t)(a_ != 0 && (((%s)r_ / (%s)a_ != (%s)b_) || (a_ == ~(%s)0 && b_ == m_))); }' % (U, a, b_, U, R, U, U, R, S, S, S, U))
+                return True
             wide = 'unsigned __int128' if sg == 'u' else '__int128'
             ea = '(%s)%s' % (wide, a) if sg == 'u' else '(%s)%s' % (wide, em.sx(n, a))
             eb = '(%s)%s' % (wide, b_) if sg == 'u' else '(%s)%s' % (wide, em.sx(n, b_))
